@@ -18,12 +18,12 @@ var legInfra = []string{"sys-child-process", "asm-child-process", "sys-driver", 
 
 var legScopes = map[string][]string{
 	"C01": {"stored-once-per-acknowledged-recipient", "acknowledged-mail-is-stored", "sys-smtp-replies", "sys-final-store", "sys-store-add", "asm-final-mailboxes",
-		"mail-is-fetchable-by-address", "size-is-length", "delivery-evicts-only-over-cap"},
+		"mail-is-fetchable-by-address", "size-is-length", "delivery-evicts-only-over-cap", "delivery-evicts-only-over-limit"},
 	"C04": {"mail-is-fetchable-by-address", "mailbox-name-is-a-fixed-point", "acknowledged-mail-is-stored"},
 	"C05": {"accept-rule", "origin-rule", "store-rule", "sys-smtp-replies", "stored-once-per-acknowledged-recipient", "acknowledged-mail-is-stored"},
 	"C07": {"ids-distinct", "listing-", "get-returns-asked-message", "no-nil-nil", "listed-message-was-delivered", "delivered-stays", "deleted-means-gone",
 		"no-crash", "no-deadlock", "store-construction", "op-error"},
-	"C08": {"cap-bound", "size-bound", "delivery-evicts-only-over-cap", "delivered-stays", "no-crash", "no-deadlock", "store-construction", "op-error"},
+	"C08": {"cap-bound", "size-bound", "delivery-evicts-only-over-cap", "delivery-evicts-only-over-limit", "delivered-stays", "no-crash", "no-deadlock", "store-construction", "op-error"},
 	"C10": {"delivered-stays", "listed-message-was-delivered", "deleted-means-gone", "ids-distinct", "listing-", "get-returns-asked-message", "read-back-intact",
 		"no-crash", "no-deadlock", "store-construction", "op-error"},
 	"C12": {"delivered-stays", "op-error", "retention-scan-never-errors", "visit-never-errors", "visit-sees-stable-mailbox", "no-crash", "no-deadlock", "store-construction",
